@@ -395,6 +395,7 @@ type vfE4Phase struct {
 	joined map[*vfHold]bool // the key had other holders when this hold was granted (or at the start of the step in which it was granted)
 	heldBefore map[vfKeyId]bool // key was held at the end of the previous step
 	stepStart  map[vfKeyId]int // index of the value version each key had when the current step began
+	relocked   map[vfKeyId]bool // some hold of the key was re-locked (re-entrant) or updated during the phase
 	gapped     map[vfKeyId]bool // key was released by everybody and taken again during the phase
 	everHeld   map[vfKeyId]bool
 	// compactions are run between two top-level steps (the goroutine is parked at
@@ -409,7 +410,7 @@ type vfE4Phase struct {
 
 func vfNewE4Phase(in *vfInstance, rng *vfRand, prof *vfProfile, epoch byte, tr *vfRewriteTracker) *vfE4Phase {
 	vfKeyEpoch = epoch
-	p := &vfE4Phase{in: in, tr: tr, epoch: epoch, vers: map[vfKeyId][]vfValVersion{}, seenAt: map[*vfHold]int{}, joined: map[*vfHold]bool{}, heldBefore: map[vfKeyId]bool{}, stepStart: map[vfKeyId]int{}, gapped: map[vfKeyId]bool{}, everHeld: map[vfKeyId]bool{}, stats: map[string]int64{}}
+	p := &vfE4Phase{in: in, tr: tr, epoch: epoch, vers: map[vfKeyId][]vfValVersion{}, seenAt: map[*vfHold]int{}, joined: map[*vfHold]bool{}, heldBefore: map[vfKeyId]bool{}, stepStart: map[vfKeyId]int{}, relocked: map[vfKeyId]bool{}, gapped: map[vfKeyId]bool{}, everHeld: map[vfKeyId]bool{}, stats: map[string]int64{}}
 	p.eng = vfNewEngine(in, rng, 4)
 	p.eng.onAofPoint = tr.hook
 	tr.onPoint = func(point int) {
@@ -569,6 +570,11 @@ func (p *vfE4Phase) sample() {
 		}
 	}
 	for kid, k := range p.sh.keys {
+		for _, h := range k.Holds {
+			if h.Grants > 1 || h.WasUpdated {
+				p.relocked[kid] = true
+			}
+		}
 		held := len(k.Holds) > 0
 		if held && !p.heldBefore[kid] && p.everHeld[kid] {
 			p.gapped[kid] = true
@@ -734,6 +740,31 @@ func vfCompareRestart(p *vfE4Phase, before *vfSnapshot, exps []*vfE4Expect, rest
 		}
 		return nil
 	}
+	// Known finding "re-locked-or-updated-hold": every LOCK record of a hold is
+	// replayed with the remaining time of that record; a re-entrant re-lock or an
+	// update extends the hold but leaves the older records behind, which are
+	// skipped once their own deadline has passed, so depth, terms and deadline
+	// of such a hold are rebuilt from a suffix of its records (and other holds of
+	// the key are re-admitted against those terms).
+	relockSig := func(db uint8, key [16]byte) string {
+		if key[2] != epoch {
+			return ""
+		}
+		if p.relocked[vfKeyId{db, vfKeyIndex(key)}] {
+			return "re-locked-or-updated-hold"
+		}
+		for i := range p.eng.opLog {
+			op := &p.eng.opLog[i]
+			if op.Kind == "lock" && op.Db == db && op.Key == vfKeyIndex(key) && op.Flag&protocol.LOCK_FLAG_UPDATE_WHEN_LOCKED != 0 {
+				return "re-locked-or-updated-hold"
+			}
+		}
+		return ""
+	}
+	add0 := add
+	add = func(clause, sig, format string, args ...interface{}) {
+		add0(clause, sig, format, args...)
+	}
 	for _, e := range restored.Errors {
 		add("structure", "", "structural inconsistency in the restored instance: %s", e)
 	}
@@ -749,31 +780,31 @@ func vfCompareRestart(p *vfE4Phase, before *vfSnapshot, exps []*vfE4Expect, rest
 				bh = bk.hold(rh.LockId)
 			}
 			if bh == nil {
-				add("restored-not-held", "", "%s L%d is held after the restart (depth %d, Count %d) but was not held when the instance stopped", vfSnapKeyName(rk), vfLockIdIndex(rh.LockId), rh.Depth, rh.Count)
+				add("restored-not-held", relockSig(rk.Db, rk.Key), "%s L%d is held after the restart (depth %d, Count %d) but was not held when the instance stopped", vfSnapKeyName(rk), vfLockIdIndex(rh.LockId), rh.Depth, rh.Count)
 				continue
 			}
 			stats["restored_holds"]++
 			ex := expOf(rk.Db, rk.Key, rh.LockId)
 			if ex != nil && ex.Never {
-				add("never-persist-restored", "", "%s L%d was taken with the never-persist flag (granted while the key had other holders: %v) but is held again after the restart", vfSnapKeyName(rk), vfLockIdIndex(rh.LockId), ex.Joined)
+				add("never-persist-restored", relockSig(rk.Db, rk.Key), "%s L%d was taken with the never-persist flag (granted while the key had other holders: %v) but is held again after the restart", vfSnapKeyName(rk), vfLockIdIndex(rh.LockId), ex.Joined)
 			}
 			unlimB := bh.EFlag&protocol.EXPRIED_FLAG_UNLIMITED_EXPRIED_TIME != 0
 			unlimR := rh.EFlag&protocol.EXPRIED_FLAG_UNLIMITED_EXPRIED_TIME != 0
 			if unlimB != unlimR {
-				add("deadline", "", "%s L%d: unlimited-expiry flag before=%v after=%v", vfSnapKeyName(rk), vfLockIdIndex(rh.LockId), unlimB, unlimR)
+				add("deadline", relockSig(rk.Db, rk.Key), "%s L%d: unlimited-expiry flag before=%v after=%v", vfSnapKeyName(rk), vfLockIdIndex(rh.LockId), unlimB, unlimR)
 			} else if !unlimB {
 				tol := vfDeadlineTolerance(bh.EFlag)
 				if rh.Deadline > bh.Deadline+tol || rh.Deadline < bh.Deadline-tol {
-					add("deadline", "", "%s L%d: deadline before the stop %d, after the restart %d (difference %+d s, tolerance %d s; restart at %d)", vfSnapKeyName(rk), vfLockIdIndex(rh.LockId), bh.Deadline, rh.Deadline, rh.Deadline-bh.Deadline, tol, restored.Now)
+					add("deadline", relockSig(rk.Db, rk.Key), "%s L%d: deadline before the stop %d, after the restart %d (difference %+d s, tolerance %d s; restart at %d)", vfSnapKeyName(rk), vfLockIdIndex(rh.LockId), bh.Deadline, rh.Deadline, rh.Deadline-bh.Deadline, tol, restored.Now)
 				}
 				stats["deadlines_compared"]++
 			}
 			if ex != nil && ex.Must {
 				if rh.Count != bh.Count || rh.Rcount != bh.Rcount {
-					add("terms", "", "%s L%d: Count/Rcount before the stop %d/%d, after the restart %d/%d", vfSnapKeyName(rk), vfLockIdIndex(rh.LockId), bh.Count, bh.Rcount, rh.Count, rh.Rcount)
+					add("terms", relockSig(rk.Db, rk.Key), "%s L%d: Count/Rcount before the stop %d/%d, after the restart %d/%d", vfSnapKeyName(rk), vfLockIdIndex(rh.LockId), bh.Count, bh.Rcount, rh.Count, rh.Rcount)
 				}
 				if rh.Depth != bh.Depth {
-					sig := ""
+					sig := relockSig(rk.Db, rk.Key)
 					add("depth", sig, "%s L%d: re-entrant depth before the stop %d, after the restart %d (SUCCED lock replies for this hold: %d)", vfSnapKeyName(rk), vfLockIdIndex(rh.LockId), bh.Depth, rh.Depth, ex.Hold.Grants)
 				}
 				stats["must_holds_compared"]++
@@ -807,7 +838,9 @@ func vfCompareRestart(p *vfE4Phase, before *vfSnapshot, exps []*vfE4Expect, rest
 						cmin = int(bh.Count)
 					}
 				}
-				if depth-1 > cmin {
+				if rs := relockSig(ex.Kid.Db, ex.KeyBytes); rs != "" {
+					sig = rs
+				} else if depth-1 > cmin {
 					// the key is held by more holders than the smallest Count among them
 					// admits (legitimate once an older holder with a larger Count has left):
 					// the loader re-admits the holds one by one through the normal rule
@@ -877,6 +910,9 @@ func vfCompareRestart(p *vfE4Phase, before *vfSnapshot, exps []*vfE4Expect, rest
 					sig = "pipeline-with-more-than-one-value-operation"
 				}
 			}
+			if sig == "" {
+				sig = relockSig(kid.Db, vfKeyBytes(kid.Db, kid.Key))
+			}
 			add("value", sig, "db%d/k%d: value after the restart %v:%x is none of the %d version(s) the key had since its newest persisted hold was taken (value at the stop %v:%x)", kid.Db, kid.Key, rk.HasData, rk.Data, len(vs[from:]), last.HasData, last.Data)
 		}
 	}
@@ -929,4 +965,128 @@ func vfAofDirText(dir string, title string) string {
 		}
 	}
 	return sb.String()
+}
+
+// ---------------------------------------------------------------- log file geometry (C08)
+
+type vfAofGeom struct {
+	Index    int   // index of the append file
+	Records  int   // whole records in the file
+	Trailing int   // bytes after the last whole record
+	DatOff   []int // DatOff[k] = bytes of the value file that belong to records < k (len Records+1)
+	DatSize  int
+	DatOK    bool // the value file is exactly as long as the records say
+}
+
+// vfAofGeometry reads the newest append file of dir and the lengths of the
+// values its records refer to (independent of the server's reader: fixed
+// 12-byte header, 64-byte records, "contains data" = bit 0x2000 of the
+// little-endian uint16 at offset 55, values = 4-byte little-endian length +
+// body in <file>.dat).
+func vfAofGeometry(dir string) (*vfAofGeom, error) {
+	idx := vfAppendIndexes(dir)
+	if len(idx) == 0 {
+		return nil, fmt.Errorf("no append file")
+	}
+	g := &vfAofGeom{Index: idx[len(idx)-1]}
+	name := filepath.Join(dir, fmt.Sprintf("append.aof.%d", g.Index))
+	b, err := os.ReadFile(name)
+	if err != nil {
+		return nil, err
+	}
+	dat, _ := os.ReadFile(name + ".dat")
+	g.DatSize = len(dat)
+	if len(b) < 12 {
+		return g, nil
+	}
+	g.Records = (len(b) - 12) / 64
+	g.Trailing = (len(b) - 12) % 64
+	pos := 0
+	g.DatOK = true
+	g.DatOff = append(g.DatOff, 0)
+	for k := 0; k < g.Records; k++ {
+		rec := b[12+64*k : 12+64*k+64]
+		if (uint16(rec[55])|uint16(rec[56])<<8)&0x2000 != 0 {
+			if pos+4 > len(dat) {
+				g.DatOK = false
+				g.DatOff = append(g.DatOff, pos)
+				continue
+			}
+			dl := int(dat[pos]) | int(dat[pos+1])<<8 | int(dat[pos+2])<<16 | int(dat[pos+3])<<24
+			if pos+4+dl > len(dat) {
+				g.DatOK = false
+				g.DatOff = append(g.DatOff, pos)
+				continue
+			}
+			pos += 4 + dl
+		}
+		g.DatOff = append(g.DatOff, pos)
+	}
+	if pos != len(dat) {
+		g.DatOK = false
+	}
+	return g, nil
+}
+
+// vfCutImage copies dir to dst with the newest append file cut to fileSize
+// bytes and its value file to datSize bytes.
+func vfCutImage(dir, dst string, g *vfAofGeom, fileSize, datSize int) error {
+	_ = os.RemoveAll(dst)
+	if err := vfCopyDir(dir, dst); err != nil {
+		return err
+	}
+	name := filepath.Join(dst, fmt.Sprintf("append.aof.%d", g.Index))
+	if err := os.Truncate(name, int64(fileSize)); err != nil {
+		return err
+	}
+	return os.Truncate(name+".dat", int64(datSize))
+}
+
+// vfCompareCarried: holds that a restart restored are in the log; unless they
+// have (almost) reached their deadline they must be held again after the
+// next restart, unchanged.
+func vfCompareCarried(carried, before, restored *vfSnapshot, now int64, sigFn func(db uint8, key [16]byte) string, stats map[string]int64) []vfE4Finding {
+	var fs []vfE4Finding
+	if carried == nil {
+		return fs
+	}
+	for _, ck := range carried.Keys {
+		for _, ch := range ck.Holds {
+			bk := before.find(ck.Db, ck.Key)
+			var bh *vfSnapHold
+			if bk != nil {
+				bh = bk.hold(ch.LockId)
+			}
+			if bh == nil {
+				continue // ended by time during the phase
+			}
+			unl := bh.EFlag&protocol.EXPRIED_FLAG_UNLIMITED_EXPRIED_TIME != 0
+			if !(unl || bh.Deadline > now+vfDeadlineTolerance(bh.EFlag)) {
+				continue
+			}
+			stats["carried_holds_expected"]++
+			rk := restored.find(ck.Db, ck.Key)
+			var rh *vfSnapHold
+			if rk != nil {
+				rh = rk.hold(ch.LockId)
+			}
+			sig := ""
+			if sigFn != nil {
+				sig = sigFn(ck.Db, ck.Key)
+			}
+			if sig == "skip" {
+				stats["carried_holds_skipped_relocked_key"]++
+				continue
+			}
+			if rh == nil {
+				fs = append(fs, vfE4Finding{Clause: "carried-hold-lost", Sig: sig, Detail: fmt.Sprintf("%s L%d was restored by the previous restart and is still alive (deadline %d, restart at %d) but is not held after this restart", vfSnapKeyName(ck), vfLockIdIndex(ch.LockId), bh.Deadline, now)})
+				continue
+			}
+			tol := vfDeadlineTolerance(bh.EFlag)
+			if rh.Depth != bh.Depth || rh.Count != bh.Count || rh.Rcount != bh.Rcount || (!unl && (rh.Deadline > bh.Deadline+tol || rh.Deadline < bh.Deadline-tol)) {
+				fs = append(fs, vfE4Finding{Clause: "carried-hold-changed", Sig: sig, Detail: fmt.Sprintf("%s L%d: before the stop depth/Count/Rcount/deadline %d/%d/%d/%d, after the restart %d/%d/%d/%d", vfSnapKeyName(ck), vfLockIdIndex(ch.LockId), bh.Depth, bh.Count, bh.Rcount, bh.Deadline, rh.Depth, rh.Count, rh.Rcount, rh.Deadline)})
+			}
+		}
+	}
+	return fs
 }
